@@ -222,6 +222,10 @@ def handleGen (op : String) (args : List String) : Option String :=
       | some [ng, k] => pure (Py.showR showRD (Gen.divPow2 d { neg := ng != 0, k := k.toNat }))
       | _ => none
   | "rdgen.normalized" => (parseRD? args).map (fun d => Py.showR showRD (Gen.normalized d))
+  | "rdgen.ne" => do
+      let a ← parseRD? (args.take 18)
+      let b ← parseRD? (args.drop 18)
+      pure (Py.showR showBool (Gen.ne a b))
   | "rdgen.repr" => (parseRD? args).map (fun d => Py.showR showHexString (Gen.repr d))
   | "rdgen.weeks" => (parseRD? args).map (fun d => Py.showR (fun (i : Int) => toString i) (Gen.weeks d))
   | "rdgen.setweeks" => do
